@@ -9,6 +9,9 @@ import (
 	"github.com/256dpi/lungo/verifsim/simrt"
 	"github.com/anishathalye/porcupine"
 	"go.mongodb.org/mongo-driver/bson"
+	"go.mongodb.org/mongo-driver/bson/primitive"
+	"go.mongodb.org/mongo-driver/mongo"
+	"go.mongodb.org/mongo-driver/mongo/options"
 
 	"verif/harness/model"
 )
@@ -48,6 +51,11 @@ func genC04Shared(seed uint64, run int) *Plan {
 				sub = Op{K: "findOneAndUpdate", DB: "db", C: "k", F: jd(key), U: jd(inc), Upsert: true, After: true}
 			default:
 				sub = Op{K: "find", DB: "db", C: "k", F: jd(bson.D{})}
+				if r.IntN(2) == 0 {
+					// an expiry pass over another collection, on the same transaction
+					tp.Ops = append(tp.Ops, Op{K: "s.expire"})
+					continue
+				}
 			}
 			tp.Ops = append(tp.Ops, Op{K: "s.op", Sess: 0, Sub: []Op{sub}})
 		}
@@ -140,6 +148,8 @@ func genC04Plain(seed uint64, run int, tier string) *Plan {
 		p.Faults = append(p.Faults, Fault{Kind: "store-before", At: r.IntN(6)})
 	case 2:
 		p.Faults = append(p.Faults, Fault{Kind: "delay", At: r.IntN(80), Task: 1 + r.IntN(ntasks), N: 5 + r.IntN(50)})
+	case 3:
+		p.Faults = append(p.Faults, Fault{Kind: "store-slow-fail", At: r.IntN(6), Ms: int64(1 + r.IntN(2000))})
 	}
 	return p
 }
@@ -171,6 +181,16 @@ func execC04Shared(t *testing.T, plan *Plan) *Outcome {
 		sim.Go("setup", false, func(*simrt.Task) {
 			if err := e.open(); err != nil {
 				e.out.Harness = "open failed: " + err.Error()
+				return
+			}
+			// a collection with expired documents under a TTL index, for the expiry passes of the members
+			ttl := e.client.Database("db").Collection("ttl")
+			_, err := ttl.Indexes().CreateOne(context.Background(), mongo.IndexModel{Keys: bson.D{{Key: "d", Value: int32(1)}}, Options: options.Index().SetExpireAfterSeconds(0)})
+			for i := 0; i < 4 && err == nil; i++ {
+				_, err = ttl.InsertOne(context.Background(), bson.D{{Key: "_id", Value: int32(i)}, {Key: "d", Value: primitive.NewDateTimeFromTime(time.Now().Add(-time.Hour))}})
+			}
+			if err != nil {
+				e.out.Harness = "cannot prepare the TTL collection: " + err.Error()
 				return
 			}
 			sess, err := e.client.StartSession()
@@ -219,6 +239,13 @@ func execC04Shared(t *testing.T, plan *Plan) *Outcome {
 		afters := map[string]map[int32]bool{}
 		for _, a := range actors {
 			for _, c := range a.calls {
+				if c.Op.K == "s.expire" {
+					if c.Err != nil {
+						e.violate(violation("C04", "shared-transaction-call-failed", "expire", fmt.Sprintf("an expiry pass on the shared transaction failed: %v", c.Err)))
+						return
+					}
+					continue
+				}
 				if len(c.Op.Sub) == 0 {
 					continue // (emptied by the minimiser)
 				}
